@@ -147,7 +147,7 @@ const CLS: [(&str, Consistency); 11] = [
     ("LocalSerial", Consistency::LocalSerial),
 ];
 
-fn cl_name(c: Consistency) -> &'static str {
+pub fn cl_name(c: Consistency) -> &'static str {
     CLS.iter().find(|(_, x)| *x == c).map(|(n, _)| *n).unwrap_or("?")
 }
 
@@ -295,4 +295,25 @@ pub fn cmd_walk(args: &[String]) -> i32 {
     out.flush().unwrap();
     println!("{}", json!({"decisions": decisions, "recorded": recorded, "inconsistent_symbols": inconsistent, "panics": panics}));
     0
+}
+
+pub fn cl_of(name: &str) -> Consistency {
+    CLS.iter().find(|(n, _)| *n == name).map(|(_, c)| *c).unwrap_or(Consistency::Quorum)
+}
+
+pub fn policy_of(name: &str) -> Box<dyn RetryPolicy> {
+    policy(name)
+}
+
+/// First concrete error instance of a symbol given as JSON.
+pub fn err_of(sym: &serde_json::Value, cl: Consistency) -> RequestAttemptError {
+    let k: &'static str = SIMPLE
+        .iter()
+        .copied()
+        .chain(["Unavailable", "ReadTimeout", "WriteTimeout"])
+        .find(|x| *x == sym["k"].as_str().unwrap())
+        .unwrap_or("Other");
+    let wt: &'static str = WTS.iter().copied().find(|x| *x == sym["wt"].as_str().unwrap_or("-")).unwrap_or("-");
+    let s = Sym { k, n: sym["n"].as_i64().unwrap_or(0) as i32, req: sym["req"].as_i64().unwrap_or(0) as i32, dp: sym["dp"].as_bool().unwrap_or(false), wt };
+    instances(&s, cl).remove(0)
 }
